@@ -43,6 +43,10 @@ def _cache_key():
     return h.hexdigest()[:16]
 
 
+def _fname(q: str) -> str:
+    return q.replace(':', '_').replace('<', '.lt.').replace('>', '.gt.').replace('=', '.eq.').replace('!', '.not.')
+
+
 def verify(functions: list[str], budgets=(8, 30, 60), verbose=False, use_cache=True):
     """Obligations of the given functions.  Results are cached per function, keyed by the content hash of the C++
     tree and of the engine + contracts (so every property check of one run shares the work)."""
@@ -53,7 +57,7 @@ def verify(functions: list[str], budgets=(8, 30, 60), verbose=False, use_cache=T
     key = _cache_key()
     cached, todo = {}, []
     for q in functions:
-        cf = cache_dir / f'vc-{key}-{q.replace(":", "_").replace("<", "_").replace(">", "_")}.json'
+        cf = cache_dir / f'vc-{key}-{_fname(q)}.json'
         if use_cache and cf.exists():
             try:
                 cached[q] = [Obligation(**o) for o in json.loads(cf.read_text())]
@@ -70,7 +74,7 @@ def verify(functions: list[str], budgets=(8, 30, 60), verbose=False, use_cache=T
         for o in obs_new:
             byfn.setdefault(o.function.split('<')[0], []).append(o)
         for q in todo:
-            cf = cache_dir / f'vc-{key}-{q.replace(":", "_").replace("<", "_").replace(">", "_")}.json'
+            cf = cache_dir / f'vc-{key}-{_fname(q)}.json'
             if all(o.status in ('discharged', 'failed') for o in byfn.get(q, [])) and byfn.get(q):
                 cf.write_text(json.dumps([o.to_json() for o in byfn[q]]))
     obs = []
